@@ -29,12 +29,12 @@ TOOL = 3
 
 
 def plan(tier, seed):
-    runs = 60 if tier == 'quick' else 400
+    runs = 60 if tier == 'quick' else 1000
     sp = []
     for y in (2021, 2022, 2023):
         sp.append({'kind': 'forced', 'year': y, 'runs': runs, 'part': 0, 'of': 2})
         sp.append({'kind': 'forced', 'year': y, 'runs': runs, 'part': 1, 'of': 2})
-        sp.append({'kind': 'solves', 'year': y, 'n': 6 if tier == 'quick' else 80})
+        sp.append({'kind': 'solves', 'year': y, 'n': 6 if tier == 'quick' else 200})
         sp.append({'kind': 'fieldnames', 'year': y, 'n': 2 if tier == 'quick' else 12})
     return sp
 
